@@ -2,7 +2,7 @@
    Only property theorems here, each closed by `exact <lemma>`; proofs are in Proofs*.v; Link.v ties the character
    test of valid_sid to the source.  `fresh` is the random source (i-th identifier); the theorems that need it assume
    that it yields well-formed (fresh_ok) resp. pairwise distinct (fresh_inj) identifiers. *)
-From CppcmsV Require Import Base.Tac C06.Defs C06.Proofs C06.ProofsNum C06.ProofsMap C06.Proofs2 C06.Proofs3 C06.Proofs4 C06.Proofs5 C06.Proofs6 C06.Proofs7 C06.Proofs8.
+From CppcmsV Require Import Base.Tac C06.Defs C06.Proofs C06.ProofsNum C06.ProofsMap C06.Proofs2 C06.Proofs3 C06.Proofs4 C06.Proofs5 C06.Proofs6 C06.Proofs7 C06.Proofs8 C06.Proofs10 C06.Proofs9.
 Local Open Scope N_scope.
 
 (* ------------------------------------------------------------------------------------------------------------
@@ -197,13 +197,14 @@ Print Assumptions session_ends_at_deadline.
    docs/C06.md) and saves it; then ANY history of other browsers / clock / attacker strings other than b's cookie; then
    the next request of b reads exactly s': values and exposed flags, age, expiration mode, on-server flag - while
    now <= the deadline given by the expiration mode and the browser still holds the cookie.
-   Premises on the world before r1: well-formed ids in jars were issued by the random source (no guessing) and nobody
-   else presents b's id (no stolen cookie).  Premises on the random source: injective; the id drawn is well formed. *)
+   Premises on the world before r1 (both are invariants of every world reachable by fair histories, see below): storage
+   keys were drawn from the random source, well-formed ids in jars are not future draws; and nobody else presents
+   b's id (no stolen cookie).  Premises on the random source: injective; the id drawn is well formed. *)
 Theorem session_refines_spec_server : forall fresh, (forall m n, fresh m = fresh n -> m = n) ->
   forall c w b script1 s' blob ex l script2,
   c_loc c = 0 ->
   sid_ok (fresh (w_next w)) = true ->
-  jars_issued fresh w ->
+  store_issued fresh w -> jars_not_future fresh w ->
   (forall b' id, b' <> b -> valid_sid (j_sess (get_jar w b')) = Some id -> valid_sid (j_sess (get_jar w b)) <> Some id) ->
   req_state c w b script1 = Some s' ->
   forallb op_keeps script1 = true ->
@@ -214,7 +215,7 @@ Theorem session_refines_spec_server : forall fresh, (forall m n, fresh m = fresh
   let w2 := fst (run fresh c w1 l) in
   (w_now w2 <= session_age (w_now w) s' (newsess_of s'))%Z -> exp_live (w_now w2) ex = true ->
   o_loaded (snd (request fresh c w2 b script2)) = Some (true, s_data s', s_tval s', s_how s', s_onsrv s').
-Proof. exact end_to_end_server. Qed.
+Proof. exact end_to_end_server2. Qed.
 Print Assumptions session_refines_spec_server.
 
 (* the same for sessions kept in the client-side cookie: here NOTHING that happens elsewhere matters - requests of other
@@ -239,6 +240,34 @@ Theorem request_touches_only_own_jar : forall fresh c b l w, Forall (not_on b) l
   get_jar (fst (run fresh c w l)) b = get_jar w b.
 Proof. exact run_keeps_jar. Qed.
 Print Assumptions request_touches_only_own_jar.
+
+(* closed form: from the EMPTY world, after any fair history `pre` (arbitrary requests of arbitrary browsers, clock
+   advances, verbatim replays of emitted cookies into any jar, attacker literals / mutated copies that are not identifiers
+   of the random source, planted exposed cookies; no records planted in storage), the same statement holds without any
+   premise on the world but "nobody else holds b's cookie".  reachable_worlds_invariant is the invariant used. *)
+Theorem reachable_worlds_invariant : forall fresh, (forall m n, fresh m = fresh n -> m = n) ->
+  forall c l, fair_run fresh c world0 l -> inv fresh (fst (run fresh c world0 l)).
+Proof. intros fresh Hi c l H. exact (inv_run fresh Hi c l world0 (inv_world0 fresh) H). Qed.
+Print Assumptions reachable_worlds_invariant.
+
+Theorem session_refines_spec_server_reachable : forall fresh, (forall m n, fresh m = fresh n -> m = n) ->
+  forall c pre b script1 s' blob ex l script2,
+  c_loc c = 0 ->
+  fair_run fresh c world0 pre ->
+  let w := fst (run fresh c world0 pre) in
+  sid_ok (fresh (w_next w)) = true ->
+  (forall b' id, b' <> b -> valid_sid (j_sess (get_jar w b')) = Some id -> valid_sid (j_sess (get_jar w b)) <> Some id) ->
+  req_state c w b script1 = Some s' ->
+  forallb op_keeps script1 = true ->
+  dempty (s_data s') = false -> skipped (w_now w) s' = false -> save_data (s_data s') = Some blob ->
+  age_exp (w_now w) (cookie_age (w_now w) s' (newsess_of s')) = Some ex ->
+  let w1 := fst (request fresh c w b script1) in
+  (forall id, valid_sid (j_sess (get_jar w1 b)) = Some id -> Forall (foreign_step b id) l) ->
+  let w2 := fst (run fresh c w1 l) in
+  (w_now w2 <= session_age (w_now w) s' (newsess_of s'))%Z -> exp_live (w_now w2) ex = true ->
+  o_loaded (snd (request fresh c w2 b script2)) = Some (true, s_data s', s_tval s', s_how s', s_onsrv s').
+Proof. exact end_to_end_server_reachable. Qed.
+Print Assumptions session_refines_spec_server_reachable.
 
 Theorem decimal_settings_roundtrip : forall z, parse_Z (show_Z z) = Some z.
 Proof. exact parse_show_Z. Qed.
@@ -287,8 +316,31 @@ Proof.
           = Some (true, s_data s', s_tval s', s_how s', s_onsrv s')).
   eapply (session_refines_spec_server ex_fresh ex_fresh_inj ex_cfg ex_w0 0%nat ex_script1 s' _ (EAt 1000050%Z) ex_l [Oclear]);
     try reflexivity.
+  - intros id H. contradiction H. reflexivity.
   - intros b id H. unfold get_jar, ex_w0 in H. cbn [w_jars] in H. destruct b; discriminate H.
   - intros b' id Hb H. unfold get_jar, ex_w0 in H. cbn [w_jars] in H. destruct b'; discriminate H.
+  - intros id H. vm_compute in H. injection H as <-. repeat constructor; try discriminate; try lia.
+  - vm_compute. discriminate.
+Qed.
+
+(* the closed form on a concrete fair prefix: another browser creates a session, an attacker plants a literal *)
+Definition ex_fresh2 (n : N) : bytes := repeat 48 31 ++ [48 + n].
+Fact ex_fresh2_inj : forall m n, ex_fresh2 m = ex_fresh2 n -> m = n.
+Proof. intros m n H. unfold ex_fresh2 in H. apply app_inv_head in H. pose proof (f_equal (hd 0) H) as H'. cbn [hd] in H'. lia. Qed.
+Example reachable_nonvacuous :
+  let pre := [StR 1 [Oset [98] [50]]; StT 3%Z; StAraw 2 [73; 97; 98; 99]; StAhist 2 0 Mid] in
+  o_loaded (snd (request ex_fresh2 ex_cfg
+     (fst (run ex_fresh2 ex_cfg (fst (request ex_fresh2 ex_cfg (fst (run ex_fresh2 ex_cfg world0 pre)) 0 [Oset [97] [49]; Oage 50%Z]))
+               [StT 10%Z; StR 1 [Oset [98] [51]]; StR 2 [Oclear]])) 0 []))
+  = Some (true, [([95; 116], ([53; 48], false)); ([97], ([49], false))], 50%Z, 1%Z, false).
+Proof.
+  cbv zeta.
+  pose (s' := mksess [([95; 116], ([53; 48], false)); ([97], ([49], false))] [] 50%Z 1%Z 0%Z false false).
+  eapply (session_refines_spec_server_reachable ex_fresh2 ex_fresh2_inj ex_cfg _ 0%nat [Oset [97] [49]; Oage 50%Z] s' _ (EAt 1000053%Z));
+    try reflexivity.
+  - cbn [fair_run fair_step]. repeat split.
+    intros n E. injection E as E. discriminate E.
+  - intros b' id Hb H. vm_compute. discriminate.
   - intros id H. vm_compute in H. injection H as <-. repeat constructor; try discriminate; try lia.
   - vm_compute. discriminate.
 Qed.
